@@ -195,6 +195,8 @@ class Session:
                 t0, req = self.park_info.get(c, (None, None))
                 if t0 is not None and req and self.impl.loop.vtime - t0 < req - 1e-9:
                     Mn_add(self, 'C14', 'timeout_not_early', 'nil after %.3f s of a %.3f s timeout' % (self.impl.loop.vtime - t0, req))
+                if t0 is not None and req == 0:
+                    Mn_add(self, 'C14', 'timeout_not_early', 'a blocking pop with timeout 0 (wait for ever) answered nil after %.3f s' % (self.impl.loop.vtime - t0))
             else:
                 kind = 'awake'
             line = self.model.ask('%s %d %s' % (kind, c, Mo.fmt_clocks(cl)))
@@ -267,8 +269,31 @@ class Session:
                         seen[id(v)], (i, k), type(v).__name__)}, 'the model stores independent values')
                 seen[id(v)] = (i, k)
 
+    def check_reply_aliasing(self, ev):
+        """a reply must be a value, not the stored container itself (it is read after the lock was released)"""
+        stored = {}
+        for i, db in self.impl.srv.dbs.items():
+            for k, it in list(db._dict.items()):
+                if isinstance(it.value, (list, dict, set)):
+                    stored[id(it.value)] = (i, k)
+                if hasattr(it.value, '_byscore'):
+                    stored[id(it.value._byscore)] = (i, k)
+                    stored[id(it.value._bylex)] = (i, k)
+
+        def walk(r):
+            if id(r) in stored and isinstance(r, (list, dict, set)):
+                raise Divergence(self.index, ev, 'aliasing', {'reply aliases stored value': 'the reply object is the container stored at %r' % (stored[id(r)],)},
+                                 'replies are values')
+            if isinstance(r, list):
+                for x in r:
+                    walk(x)
+        for rs in (getattr(self, 'last_out', None) or {}).values():
+            for r in rs:
+                walk(r)
+
     def compare_snap(self, ev):
         self.check_no_aliasing(ev)
+        self.check_reply_aliasing(ev)
         si = self.impl.snapshot()
         sm = self.model.snap()
         if self.aio:
